@@ -143,3 +143,97 @@ Proof.
   - destruct (negb (nonempty (u_path u)) && nonempty (u_netloc u) && (nonempty (u_query u) || nonempty (u_fragment u))); reflexivity.
 Qed.
 End M.
+
+(** the accessors: the lazy authority split and its four getters, the decoded user/password,
+    host_subcomponent, host_port_subcomponent, port, is_default_port, raw_path, path, path_safe,
+    absolute *)
+Local Arguments N.eqb : simpl never.
+Section A.
+Variable O : oracles.
+Variable B : backend.
+
+(** the getters run only when the object has no pre-computed value (cached_property) *)
+Theorem gen_cache_netloc_ok u : netloc_parts u = match u_eager u with Some m => Ok m | None => gen_cache_netloc u end.
+Proof.
+  unfold netloc_parts, gen_cache_netloc. destruct (u_eager u); [reflexivity|].
+  destruct (split_netloc (u_netloc u)) as [[[[a b] c] d]|e]; reflexivity.
+Qed.
+
+Theorem gen_authority_getters_ok u :
+  raw_user u = (match u_eager u with Some m => Ok (m_user m) | None => gen_raw_user u end)
+  /\ raw_password u = (match u_eager u with Some m => Ok (m_password m) | None => gen_raw_password u end)
+  /\ raw_host u = (match u_eager u with Some m => Ok (m_host m) | None => gen_raw_host u end)
+  /\ explicit_port u = (match u_eager u with Some m => Ok (m_port m) | None => gen_explicit_port u end).
+Proof.
+  unfold raw_user, raw_password, raw_host, explicit_port, gen_raw_user, gen_raw_password, gen_raw_host, gen_explicit_port.
+  rewrite gen_cache_netloc_ok. destruct (u_eager u); [repeat split|].
+  destruct (gen_cache_netloc u); repeat split.
+Qed.
+
+Theorem gen_user_ok u : gen_user B u = user B u /\ gen_password B u = password B u.
+Proof.
+  unfold gen_user, gen_password, user, password.
+  split; [destruct (raw_user u) as [[r|]|e]|destruct (raw_password u) as [[r|]|e]]; reflexivity.
+Qed.
+
+Theorem gen_host_subcomponent_ok u : gen_host_subcomponent u = host_subcomponent u.
+Proof. unfold gen_host_subcomponent, host_subcomponent. destruct (raw_host u) as [[r|]|e]; reflexivity. Qed.
+
+Theorem gen_port_ok u : gen_port u = port u /\ gen_is_default_port u = is_default_port u.
+Proof.
+  unfold gen_port, port, gen_is_default_port, is_default_port.
+  split; destruct (explicit_port u) as [[p|]|e]; reflexivity.
+Qed.
+
+Lemma last1_dot raw : str_eqb (last1 raw) [46] = match last_opt raw with Some 46 => true | _ => false end.
+Proof.
+  unfold last1. destruct (last_opt raw) as [c|]; [|reflexivity]. cbn [str_eqb].
+  destruct (N.eqb_spec c 46) as [->|Hn]; [reflexivity|].
+  rewrite andb_true_r. destruct c as [|p]; [reflexivity|].
+  repeat (destruct p as [p|p|]; try reflexivity). now contradiction Hn.
+Qed.
+
+Lemma match46 {A} (c : N) (X Y : A) : c <> 46 -> match c with 46 => X | _ => Y end = Y.
+Proof.
+  intros H. destruct c as [|p]; [reflexivity|].
+  repeat (destruct p as [p|p|]; try reflexivity). now contradiction H.
+Qed.
+
+Theorem gen_host_port_subcomponent_ok u : gen_host_port_subcomponent u = host_port_subcomponent u.
+Proof.
+  unfold gen_host_port_subcomponent, host_port_subcomponent.
+  destruct (raw_host u) as [[raw|]|e]; cbn [bind]; try reflexivity.
+  rewrite last1_dot. unfold bracket_if_colon.
+  assert (G : forall r, match explicit_port u with
+                        | Err e => Err e
+                        | Ok explicit_port_2 =>
+                            let port := explicit_port_2 in
+                            match port with
+                            | None => Ok (Some (if mem 58 r then [91] ++ r ++ [93] else r))
+                            | Some port => if opt_N_eqb (Some port) (default_port (u_scheme u))
+                                           then Ok (Some (if mem 58 r then [91] ++ r ++ [93] else r))
+                                           else Ok (Some (if mem 58 r then [91] ++ r ++ [93; 58] ++ str_of_N port else r ++ [58] ++ str_of_N port))
+                            end
+                        end
+                        = (do p <- explicit_port u;
+                           match p with
+                           | None => Ok (Some (if mem 58 r then [91] ++ r ++ [93] else r))
+                           | Some pt => if opt_N_eqb (Some pt) (default_port (u_scheme u))
+                                        then Ok (Some (if mem 58 r then [91] ++ r ++ [93] else r))
+                                        else Ok (Some ((if mem 58 r then [91] ++ r ++ [93] else r) ++ [58] ++ str_of_N pt))
+                           end)).
+  { intros r. destruct (explicit_port u) as [[p|]|e]; cbn [bind]; try reflexivity.
+    destruct (opt_N_eqb (Some p) (default_port (u_scheme u))); [reflexivity|].
+    destruct (mem 58 r); [|reflexivity]. now rewrite <- !app_assoc. }
+  destruct (last_opt raw) as [c|]; [|apply G].
+  destruct (N.eq_dec c 46) as [->|Hn]; [apply G|].
+  rewrite (match46 c true false Hn), (match46 c (rstrip [46] raw) raw Hn). apply G.
+Qed.
+
+Theorem gen_path_accessors_ok u :
+  gen_raw_path u = raw_path u /\ gen_path B u = path B u /\ gen_path_safe B u = path_safe B u /\ gen_absolute u = absolute u.
+Proof.
+  unfold gen_raw_path, raw_path, gen_path, path, gen_path_safe, path_safe, gen_absolute, absolute, nonempty.
+  repeat split; destruct (u_path u); reflexivity.
+Qed.
+End A.
